@@ -247,6 +247,28 @@ def check_join_leave(ctx, rule):
                 problems.append("a document that was not joined is closed / switched off / unsubscribed: %s" % (closes + off + unsub))
         ctx.check(not problems, rule, L + "leave", "leave[%s]" % ("joined" if syncing else "not-joined"),
                   "returns %s; calls %s; marked as joined afterwards: %s; %s" % (got, log, marked, "; ".join(problems) or "as specified"), lv.sp)
+    # a leave whose store step fails (round 12, C11-12): the document stays marked as joined only if the store still has it as the
+    # engine joined it - once sync was switched off, the event channel unsubscribed or the handle released, the engine may not go
+    # on answering requests for it as for a document that is being synced ("requests for documents that are not being synced are
+    # declined as not found": the joined mark is what accept_sync_request consults)
+    for fail in ("set_sync", "unsubscribe", "close"):
+        got, log, marked = eval_join_leave(f, "leave", 1, fail)
+        done = []
+        for x in log:
+            if x[0] in ("set_sync", "unsubscribe", "close"):
+                if x[0] == fail:
+                    break
+                done.append(x[0])
+        problems = []
+        if got.startswith("UNSUPPORTED"):
+            problems.append(got)
+        else:
+            if not got.startswith("Err("):
+                problems.append("the failed step is not reported (returns %s)" % got)
+            if marked and done:
+                problems.append("still marked as joined although %s already took effect in the store" % "/".join(done))
+        ctx.check(not problems, rule, L + "leave", "leave[joined,%s-fails]" % fail,
+                  "returns %s; calls %s; marked as joined afterwards: %s; %s" % (got, log, marked, "; ".join(problems) or "as specified"), lv.sp)
 
 
 def check_state_insert(ctx, rule):
